@@ -31,7 +31,7 @@ const c14Scenarios = 8
 
 func c14Repeats(tier string) int {
 	if tier == "thorough" {
-		return 40
+		return 120
 	}
 	return 5
 }
